@@ -50,7 +50,7 @@ Theorem agree_is_spec_c02_run ops : forall st s,
 Proof.
   induction ops as [|o ops IH]; intros st s Hinv Habs Hwf; [reflexivity|].
   inversion Hwf as [|? ? Ho Hops]; subst.
-  destruct o as [w o_new | ds since limit latest o_ents o_next | ds limits o_pages | id at_ scope merged o_found o_parts o_del | fam o_keys | ds since limit o_ents o_next];
+  destruct o as [w o_new | ds since limit latest o_ents o_next | ds limits o_pages | id at_ scope merged o_found o_parts o_del | fam o_keys | ds since limit o_ents o_next | id scope o_refs];
     cbn [agree_run spec_run].
   - (* write *)
     destruct (apply_wop_refines (fst v_fixed) st (sget s) w Ho Hinv Habs) as [Hinv' Habs'].
@@ -78,6 +78,7 @@ Proof.
     rewrite (Habs ds) in Hc.
     destruct (changes_rev (get_ds st ds) since limit) as [out next].
     rewrite <- Hc. reflexivity.
+  - rewrite (IH _ _ Hinv Habs Hops). reflexivity.
 Qed.
 
 Theorem agree_is_spec_c02 c :
